@@ -49,6 +49,28 @@ void harness(void)
       H4V_ASSERT(lid != FAIL && GRreadlut(lid, pout) == SUCCEED, "C15.S1.r8.readlut");
       for (i = 0; i < 768; i++) H4V_ASSERT(pout[i] == pal[i], "C15.S1.r8.palette: palette read through GR differs"); }
     H4V_ASSERT(GRendaccess(ri) == SUCCEED && GRend(gr) == SUCCEED && Hclose(f) == SUCCEED, "C15.S1.r8.close");
+#elif MODE == 5 /* two 8-bit rasters sharing one palette (DFR8setpalette once, putimage + addimage) -> GR */
+    H4V_ASSERT(DFR8setpalette(pal) == SUCCEED, "C15.S1.r8b.setpal");
+    H4V_ASSERT(DFR8putimage("t.hdf", pix, XD, YD, 0) == SUCCEED, "C15.S1.r8b.put");
+    H4V_ASSERT(DFR8addimage("t.hdf", pix + XD * YD, XD, YD, 0) == SUCCEED, "C15.S1.r8b.add");
+    f = Hopen("t.hdf", DFACC_READ, 0);
+    gr = GRstart(f);
+    H4V_ASSERT(f != FAIL && gr != FAIL, "C15.S1.r8b.grstart");
+    { int32 nd, nat; H4V_ASSERT(GRfileinfo(gr, &nd, &nat) == SUCCEED && nd == 2, "C15.S1.r8b.count: GR does not present exactly the two 8-bit rasters"); }
+    for (c = 0; c < 2; c++) {
+        int32 lid;
+        ri = GRselect(gr, c);
+        H4V_ASSERT(ri != FAIL && GRgetiminfo(ri, nm, &nc, &nt, &il, dims, &na) == SUCCEED, "C15.S1.r8b.info");
+        H4V_ASSERT(nc == 1 && dims[0] == XD && dims[1] == YD, "C15.S1.r8b.shape");
+        for (i = 0; i < XD * YD * 3 + 4; i++) out[i] = 0x4D;
+        H4V_ASSERT(GRreadimage(ri, st, NULL, ed, out) == SUCCEED, "C15.S1.r8b.read");
+        for (i = 0; i < XD * YD; i++) H4V_ASSERT(out[i] == pix[c * XD * YD + i], "C15.S1.r8b.pixels: 8-bit raster read through GR differs");
+        lid = GRgetlutid(ri, 0);
+        H4V_ASSERT(lid != FAIL && GRreadlut(lid, pout) == SUCCEED, "C15.S1.r8b.readlut: palette of an image sharing a palette cannot be read through GR");
+        for (i = 0; i < 768; i++) H4V_ASSERT(pout[i] == pal[i], "C15.S1.r8b.palette: shared palette read through GR differs");
+        H4V_ASSERT(GRendaccess(ri) == SUCCEED, "C15.S1.r8b.endaccess");
+    }
+    H4V_ASSERT(GRend(gr) == SUCCEED && Hclose(f) == SUCCEED, "C15.S1.r8b.close");
 #elif MODE == 1
     f = Hopen("t.hdf", DFACC_CREATE, 16);
     gr = GRstart(f);
@@ -115,6 +137,7 @@ void harness(void)
         ann = ANcreate(an, 1000, 2, AN_DATA_DESC);
         H4V_ASSERT(ann != FAIL && ANwriteann(ann, (const char *)&txt[9], 7) == SUCCEED && ANendaccess(ann) == SUCCEED, "C15.S1.an.write");
         H4V_ASSERT(ANend(an) == SUCCEED && Hclose(f) == SUCCEED, "C15.S1.an.close");
+        H4V_ASSERT(DFANclear() == SUCCEED, "C15.S1.dfan.clear"); /* drop DFAN's per-process directory cache (documented reset call) */
         H4V_ASSERT(DFANgetdesclen("t.hdf", 1000, 2) == 7, "C15.S1.dfan.len: description length seen through DFAN differs");
         for (i = 0; i < 24; i++) buf[i] = 0x4D;
         H4V_ASSERT(DFANgetdesc("t.hdf", 1000, 2, buf, 16) != FAIL, "C15.S1.dfan.getdesc");
